@@ -13,4 +13,32 @@ namespace Romea.Hidden.C17
 
 theorem hidden_state_as_recorded : Romea.Generated.C17.hiddenState = [] := by rfl
 
+/-- The names (not only the types) of what every translated function reads, carries through its loops and returns are those
+    the bridge theorems were written against: a function that now reads or writes ANOTHER member of the same type keeps its Lean
+    type, and a positional application in a bridge would keep checking. -/
+theorem signatures_as_recorded : Romea.Generated.C17.signatures = [
+    "MINIMAL_WINDOW_SIZE ()",
+    "MAXIMAL_WINDOW_SIZE ()",
+    "RateMonitoring.initialize (expectedRate) result: windowSize_'",
+    "SharedVariable.SharedVariable (value) result: value_'",
+    "RateMonitoring.RateMonitoring () result: lastDuration__value_', lastPeriod_', periodsSum_', periods_', rate_', windowSize_'",
+    "SharedVariable.load (value_) result: ret",
+    "durationToNanoSecond (duration) result: ret",
+    "SharedVariable.store (value) result: value_'",
+    "RateMonitoring.update (duration lastDuration__value_ periodsSum_ periods_ rate__p windowSize_) result: ret, lastDuration__value_', lastPeriod_', periodsSum_', periods_', rate_'",
+    "durationToSecond (duration) result: ret",
+    "RateMonitoring.timeout (duration lastDuration__value_ periods_ rate__p) result: ret, rate_'",
+    "RateMonitoring.getRate (rate_) result: ret",
+    "Checkup.setDiagnostic_ (messageEnd report__info_begin_first status) result: report__diagnostics_front_message', report__diagnostics_front_status'",
+    "Checkup.setValue_ (toStringInfoValue value) result: report__info_begin_second'",
+    "Checkup.getStatus_ (report__diagnostics_front_status) result: ret",
+    "CheckupEqualTo.evaluate (epsilon_ report__info_begin_first toStringInfoValue value value_to_compare_with_) result: ret, report__diagnostics_front_message', report__diagnostics_front_status', report__info_begin_second'",
+    "CheckupRate.evaluate_eq (checkup__epsilon_ checkup__report__info_begin_first checkup__value_to_compare_with_ rateMonitoring__lastDuration__value_ rateMonitoring__periodsSum_ rateMonitoring__periods_ rateMonitoring__rate_ rateMonitoring__windowSize_ stamp toStringInfoValue) result: ret, checkup__report__diagnostics_front_message', checkup__report__diagnostics_front_status', checkup__report__info_begin_second', rateMonitoring__lastDuration__value_', rateMonitoring__lastPeriod_', rateMonitoring__periodsSum_', rateMonitoring__periods_', rateMonitoring__rate_'",
+    "CheckupGreaterThan.evaluate (epsilon_ report__info_begin_first toStringInfoValue value value_to_compare_with_) result: ret, report__diagnostics_front_message', report__diagnostics_front_status', report__info_begin_second'",
+    "CheckupRate.evaluate_gt (checkup__epsilon_ checkup__report__info_begin_first checkup__value_to_compare_with_ rateMonitoring__lastDuration__value_ rateMonitoring__periodsSum_ rateMonitoring__periods_ rateMonitoring__rate_ rateMonitoring__windowSize_ stamp toStringInfoValue) result: ret, checkup__report__diagnostics_front_message', checkup__report__diagnostics_front_status', checkup__report__info_begin_second', rateMonitoring__lastDuration__value_', rateMonitoring__lastPeriod_', rateMonitoring__periodsSum_', rateMonitoring__periods_', rateMonitoring__rate_'",
+    "Checkup.timeout (report__info_begin_first) result: report__diagnostics_front_message', report__diagnostics_front_status', report__info_begin_second'",
+    "CheckupRate.heartBeatCallback_eq (checkup__report__diagnostics_front_message checkup__report__diagnostics_front_status checkup__report__info_begin_first checkup__report__info_begin_second rateMonitoring__lastDuration__value_ rateMonitoring__periods_ rateMonitoring__rate_ stamp) result: ret, checkup__report__diagnostics_front_message', checkup__report__diagnostics_front_status', checkup__report__info_begin_second', rateMonitoring__rate_'",
+    "CheckupRate.heartBeatCallback_gt (checkup__report__diagnostics_front_message checkup__report__diagnostics_front_status checkup__report__info_begin_first checkup__report__info_begin_second rateMonitoring__lastDuration__value_ rateMonitoring__periods_ rateMonitoring__rate_ stamp) result: ret, checkup__report__diagnostics_front_message', checkup__report__diagnostics_front_status', checkup__report__info_begin_second', rateMonitoring__rate_'",
+    "RateMonitoring.RateMonitoring_rate (expectedRate) result: lastDuration__value_', lastPeriod_', periodsSum_', periods_', rate_', windowSize_'"] := by rfl
+
 end Romea.Hidden.C17
